@@ -54,7 +54,7 @@ void h_linetype2(void) {
 	if (line->type == LINE_META) {
 		ASSERT(am && !(ext & EXT_COMPATIBILITY), "C11: a line is typed LINE_META only while metadata is still allowed and not in compatibility mode");
 		ASSERT(ft == TEXT_PLAIN, "C11: only a line starting with plain text can be a metadata line");
-		ASSERT(g_url == 0 && g_url_calls == 1, "C11: a line that starts with a URL is never a metadata line (scan_url is consulted first)");
+		ASSERT(g_url == 0 && g_url_calls >= 1, "C11: a line that starts with a URL is never a metadata line (scan_url is consulted first)");
 		ASSERT(g_meta != 0, "C11: a line is typed LINE_META only if scan_meta_line accepts it");
 	}
 	REACH();
